@@ -401,3 +401,108 @@ V("C11-raise-mode-continues", "C11", "ValidationError handler does not raise in 
 V("C11-benign-skip-inline", "C11", "skip tuple inlined into the isinstance call", CORE, expect="silent",
   edits=[(CORE, "            if isinstance(field, ignore_types):\n                continue",
           "            if isinstance(field, (IncludeFieldMixin, VirtualFieldMixin, InstanceMethodFieldMixin)):\n                continue")])
+
+# ------------------------------------------------------------------------------------------ C15
+V("C15-setval-outside-try", "C15", "D8 re-introduced: __setval__ outside the wrapping try", CORE,
+  """                value = field.validate(self, value)
+                field.__setval__(self, value)
+            except ValidationError:
+                raise
+            except Exception as err:
+                raise ValidationError(self, field, err) from err
+            else:
+                self._default_value_keys.discard(key)""",
+  """                value = field.validate(self, value)
+            except ValidationError:
+                raise
+            except Exception as err:
+                raise ValidationError(self, field, err) from err
+            else:
+                field.__setval__(self, value)
+                self._default_value_keys.discard(key)""", expect_rule="escapes @ Config._set_value")
+V("C15-parent-dropped", "C15", "D1 re-introduced: Schema.__call__ drops parent", CORE,
+  "        return Config(self, parent, **data)", "        return Config(self, **data)", expect_rule="link.parent", check=["C15", "C02", "C03"])
+V("C15-handler-typeerror", "C15", "load_tree converts field failures to TypeError", CORE,
+  """                try:
+                    value = field.to_python(self, value)
+                except ValidationError:
+                    raise
+                except Exception as err:
+                    raise ValidationError(self, field, err) from err""",
+  """                try:
+                    value = field.to_python(self, value)
+                except ValidationError:
+                    raise
+                except Exception as err:
+                    raise TypeError(str(err)) from err""", expect_rule="escapes @ Config.load_tree")
+V("C15-load-no-try", "C15", "to_python no longer wrapped in load_tree", CORE,
+  """                try:
+                    value = field.to_python(self, value)
+                except ValidationError:
+                    raise
+                except Exception as err:
+                    raise ValidationError(self, field, err) from err""",
+  """                value = field.to_python(self, value)""", expect_rule="escapes @ Config.load_tree")
+V("C15-narrow-handler", "C15", "_set_value converts only ValueError", CORE,
+  """                field.__setval__(self, value)
+            except ValidationError:
+                raise
+            except Exception as err:""",
+  """                field.__setval__(self, value)
+            except ValidationError:
+                raise
+            except ValueError as err:""", expect_rule="escapes @ Config._set_value")
+V("C15-wrong-field", "C15", "error built with the schema instead of the failing field", CORE,
+  """                field.__setval__(self, value)
+            except ValidationError:
+                raise
+            except Exception as err:
+                raise ValidationError(self, field, err) from err""",
+  """                field.__setval__(self, value)
+            except ValidationError:
+                raise
+            except Exception as err:
+                raise ValidationError(self, self._schema, err) from err""", expect_rule="handler.names-config-and-field")
+V("C15-list-item-late-links", "C15", "list item loaded before its parent/container links are set", LIST,
+  """                cfg = self.item_field()  # type: ignore
+                cfg._container = self
+                cfg._key = self.list_field._key
+                cfg._parent = self.cfg
+                cfg.load_tree(value)  # type: ignore""",
+  """                cfg = self.item_field()  # type: ignore
+                cfg.load_tree(value)  # type: ignore
+                cfg._container = self
+                cfg._key = self.list_field._key
+                cfg._parent = self.cfg""", expect_rule="link.")
+V("C15-dict-no-key", "C15", "dict value errors lose the key", DICT,
+  """                "invalid dictionary value: %s" % exc,
+                ref_path=self._ref_path(key),
+            )""",
+  """                "invalid dictionary value: %s" % exc,
+            )""", expect_rule="dict.error-carries-key")
+V("C15-env-unwrapped", "C15", "invalid environment value surfaces as bare ValueError", CORE,
+  """                try:
+                    env_value = self.validate(cfg, env_value)
+                except ValidationError:
+                    raise
+                except Exception as exc:
+                    raise ValidationError(cfg, self, exc) from exc
+                else:
+                    value = env_value""",
+  """                value = self.validate(cfg, env_value)""", expect_rule="escapes @ Field.__setdefault__")
+V("C15-benign-helper-wrap", "C15", "validate+store moved into a helper that is called inside the try", CORE, expect="silent",
+  edits=[(CORE, """                value = field.validate(self, value)
+                field.__setval__(self, value)
+            except ValidationError:""", """                value = self._validate_and_store(field, value)
+            except ValidationError:"""),
+         (CORE, """    def __setattr__(self, name: str, value: Any) -> Any:
+        \"\"\"
+        Validate a configuration value and set it.""",
+          """    def _validate_and_store(self, field: Field, value: Any) -> Any:
+        value = field.validate(self, value)
+        field.__setval__(self, value)
+        return value
+
+    def __setattr__(self, name: str, value: Any) -> Any:
+        \"\"\"
+        Validate a configuration value and set it.""")])
